@@ -1,15 +1,16 @@
 """Restricted Python -> loop-IR translator (DESIGN 2.3(c)) and the exact tie `loopir_tie(ctx, names)`.
 
 The explicit-loop numerical routines of spectrum (LEVINSON, arburg, CORRELATION, HERMTOEP, TOEPLITZ, levup,
-levdown, the psi loop of minvar) are translated, on every run, from the source text of the SNAPSHOT into terms of the
+levdown, the psi loop of minvar, and Marple's fast recursions arcovar_marple / modcovar_marple) are translated, on every run, from the source text of the SNAPSHOT into terms of the
 deep-embedded IR of coq/Model/LoopIR.v.  The IR programs are run by the Coq interpreter `run` at the exact instance
 QcC (vm_compute) and compared with ZERO tolerance against the hand-written Gallina models (coq/Model/LoopIRTie.v):
-same outcome constructor, every array entry, every scalar.
+same outcome constructor, every array entry, every scalar.  The Marple routines are in addition compared, exactly, with the
+least-squares model of Model/Ls.v (coq/Model/LoopIRMarple.v), and their orders 0 and 1 are theorems (coq/Proofs/LoopIRMarple0.v).
 
 The translator is fail-closed: an `ast` node outside the recognised subset aborts the translation of that function
 (`Untranslatable`), which the tie reports through ctx.broken as "translation of <fn> failed: <node>".  Nothing is
 skipped silently; what is ignored is listed here: docstrings / bare string statements, `logging.<f>(...)` statements
-whose arguments are formatting only, and, for a function translated by REGION (minvar), the statements named
+whose arguments are formatting (or slices of names) only, exception objects of a known class that are built but not raised, and, for a function translated by REGION (minvar), the statements named
 verbatim in its spec (they must be present, textually unchanged, in the given order).
 """
 import ast, hashlib, os, re, sys, time
